@@ -113,7 +113,8 @@ class World:
                                      f"(values are the ordinals of body executions)")
         if set(ctl.inbody) != set(op["inb"]):
             # the body did not run where it must (stale value) / ran where it must not (ran twice)
-            raise Divergence("MemoFresh" if set(op["inb"]) - set(ctl.inbody) else "BodyOnce", f"{act}:in-body",
+            clause = "MemoFresh" if self.kind == "tsc" and set(op["inb"]) - set(ctl.inbody) else "BodyOnce"
+            raise Divergence(clause, f"{act}:in-body",
                              f"after {act} by thread {t}: threads inside the wrapped function: real {sorted(ctl.inbody)}, specified {sorted(op['inb'])}")
         if self.blocked() != set(op["blk"]):
             raise Divergence("BodyOnce", f"{act}:blocked-set",
